@@ -51,7 +51,7 @@ macro "c05_open" : tactic => `(tactic|
     St.size, ctorState, lastOf, elemAt_eq, shrinkTo, constructEnd, putElems, withElems,
     VW.at_, VW.front, VW.back, VW.removePrefix, VW.removeSuffix, VW.copy, VW.substr, VW.narrow, VW.sub,
     SP.at_, SP.front, SP.back, SP.first, SP.last, SP.subspan,
-    IV.front, IV.back, IV.at_, IV.append, IV.popBack, AR.at_,
+    IV.front, IV.back, IV.at_, IV.append, IV.popBack, AR.at_, AR.front, AR.back,
     SV.at_, SV.front, SV.back, SV.indexGuard, SV.pushBack, SV.emplaceBack, SV.popBack, SV.setSizeGuard, SV.itInRange, SV.pairInRange,
     SV.destroyGuard, SV.clear, SV.rotateAt, putAlt,
     STR.front, STR.back, STR.at_, STR.pushBack, STR.popBack, STR.eraseRng, STR.setSizeGuard, STR.ctorPtr, STR.ctorFill, STR.assignPtr,
@@ -93,7 +93,9 @@ theorem spBack_eq (cfg : Cfg) (s : St) : run (.spBack) cfg s = expect (.spBack) 
 theorem spFirst_eq (a) (cfg : Cfg) (s : St) : run (.spFirst a) cfg s = expect (.spFirst a) cfg s := by c05_open; c05_close
 theorem spLast_eq (a) (cfg : Cfg) (s : St) : run (.spLast a) cfg s = expect (.spLast a) cfg s := by c05_open; c05_close
 theorem spSubspan_eq (a b) (cfg : Cfg) (s : St) : run (.spSubspan a b) cfg s = expect (.spSubspan a b) cfg s := by c05_open; c05_close
-theorem arAt_eq (k i) (cfg : Cfg) (s : St) (h : cfg.safe = true ∨ i < s.size) : run (.arAt k i) cfg s = expect (.arAt k i) cfg s := by c05_open; c05_close
+theorem arAt_eq (k i) (cfg : Cfg) (s : St) (h : cfg.safe = true ∨ i < s.size ∨ s.size = 0) : run (.arAt k i) cfg s = expect (.arAt k i) cfg s := by c05_open; c05_close
+theorem arFront_eq (k) (cfg : Cfg) (s : St) : run (.arFront k) cfg s = expect (.arFront k) cfg s := by c05_open; c05_close
+theorem arBack_eq (k) (cfg : Cfg) (s : St) : run (.arBack k) cfg s = expect (.arBack k) cfg s := by c05_open; c05_close
 theorem ivFront_eq (k) (cfg : Cfg) (s : St) : run (.ivFront k) cfg s = expect (.ivFront k) cfg s := by c05_open; c05_close
 theorem ivBack_eq (k) (cfg : Cfg) (s : St) : run (.ivBack k) cfg s = expect (.ivBack k) cfg s := by c05_open; c05_close
 theorem ivAt_eq (k i) (cfg : Cfg) (s : St) : run (.ivAt k i) cfg s = expect (.ivAt k i) cfg s := by c05_open; c05_close
